@@ -206,6 +206,55 @@ def inline_instance(K, F, T, mapping):
     return Instance('C14', 'pb_bss.distribution.mixture_model_utils:apply_inline_permutation_alignment', name, make, call, ensures)
 
 
+def integration_pa_bounded_instance():
+    """Inline PA of the integration models on several bins: in every bin the result is the posterior of some pairing that is not
+    worse than the identity under the criterion (recomputed independently), and a bin processed alone gives the same result."""
+    from pb_bss.distribution import mixture_model_utils as mmu
+    from scipy.special import logsumexp
+
+    def make(B):
+        return {'K': B.choose('K', [2, 3]), 'F': B.choose('F', [2, 4]), 'T': B.choose('T', [3, 6]), 'seed': B.choose('seed', list(range(3000))),
+                'd': B.given('d', np.zeros(1))}
+
+    def call(inp):
+        rng = np.random.RandomState(inp['seed'])
+        K, F, T = inp['K'], inp['F'], inp['T']
+        w = rng.dirichlet(np.ones(K) * 3, size=F)[:, :, None]
+        # bins of very different scale: the best criterion value differs from bin to bin
+        spat = rng.normal(size=(F, K, T)) * rng.uniform(0.5, 6.0, size=(F, 1, 1)) + rng.uniform(-20, 20, size=(F, 1, 1))
+        spec = rng.normal(size=(F, K, T)) * 2.0
+        out = mmu.log_pdf_to_affiliation_for_integration_models_with_inline_pa(w, spat, spec)
+        alone = np.concatenate([mmu.log_pdf_to_affiliation_for_integration_models_with_inline_pa(w[f:f + 1], spat[f:f + 1], spec[f:f + 1]) for f in range(F)])
+        return {'out': np.asarray(out), 'alone': np.asarray(alone), 'w': w, 'spat': spat, 'spec': spec}
+
+    def ensures(sp, inp, out):
+        K, F, T = inp['K'], inp['F'], inp['T']
+        g, w, a, b = out['out'], out['w'], out['spat'], out['spec']
+        yield 'shape', bool(g.shape == (F, K, T))
+        if g.shape != (F, K, T):
+            return
+        ok = True
+        for f in range(F):
+            found = False
+            crit = {}
+            for p in itertools.permutations(range(K)):
+                joint = a[f, list(p)] + b[f]
+                post_u = np.exp(joint - logsumexp(joint, axis=0, keepdims=True))
+                crit[p] = float(np.sum(post_u * joint))
+            for p in itertools.permutations(range(K)):
+                joint = a[f, list(p)] + b[f]
+                lw = np.log(w[f]) + joint
+                post = np.exp(lw - logsumexp(lw, axis=0, keepdims=True))
+                if np.allclose(g[f], post, rtol=1e-7, atol=1e-10) and crit[p] >= crit[tuple(range(K))] - 1e-9 * max(1.0, abs(crit[p])):
+                    found = True
+            ok &= found
+        yield 'every-bin-uses-a-pairing-not-worse-than-the-identity', ok
+        yield 'bin-alone-equals-bin-in-the-stack', bool(np.allclose(g, out['alone'], rtol=1e-9, atol=1e-12))
+
+    return Instance('C14', 'pb_bss.distribution.mixture_model_utils:log_pdf_to_affiliation_for_integration_models_with_inline_pa',
+                    'bounded-several-bins', make, call, ensures, mode='bounded', bounded_n=80, frame=False)
+
+
 def integration_pa_instance(K, F, T):
     """Inline PA of the integration models: the pairing that is used scores at least as high as the identity under the
     function's own criterion (sum of candidate posterior times joint log-pdf), and the result is the posterior of it."""
@@ -310,6 +359,7 @@ def instances(tier):
         for cols in itertools.product(perms, repeat=F):
             out.append(inline_instance(K, F, T, np.array(cols).T))
     out.append(integration_pa_instance(2, 1, 1))
+    out.append(integration_pa_bounded_instance())
     if th:
         out.append(integration_pa_instance(2, 2, 1))
         out.append(integration_pa_instance(2, 1, 2))
